@@ -73,7 +73,9 @@ Definition dict_lookahead (L : limits) (val : obj) (s4 : bytes) : res (obj * byt
 Lemma read_dict_loop_eq L f d acc s :
   read_dict_loop L (S f) d acc s =
   match read_name L s with
-  | Err _ => if starts_with kw_gtgt s then Ok (ODict acc, drop 2 s) else Err Malformed
+  | Err _ =>
+    let s' := read_name_stop L s in
+    if starts_with kw_gtgt s' then Ok (ODict acc, drop 2 s') else Err Malformed
   | Ok (key, s1) =>
     match skip_ws s1 with
     | Err e => Err (eof_mal e)
